@@ -3,6 +3,7 @@ package c20
 
 import (
 	"bytes"
+	"crypto/tls"
 	"fmt"
 	"io"
 	"net/http"
@@ -175,6 +176,10 @@ func wrap(t *rapid.T, kind string, next http.Handler, intervene bool, custom ...
 	if len(custom) > 0 && intervene {
 		cust = custom[0]
 	}
+	// a quarter of the layers run in their verbose / debug mode with a logger that really
+	// formats its arguments, and some are re-bound to the same handler through their Wrap method
+	verbose := rapid.IntRange(0, 3).Draw(t, "verboseLayer") == 0
+	rewrap := rapid.IntRange(0, 3).Draw(t, "rewrap") == 0
 	must := func(err error) {
 		if err != nil {
 			t.Fatalf("building layer %s: %v", kind, err)
@@ -182,15 +187,26 @@ func wrap(t *rapid.T, kind string, next http.Handler, intervene bool, custom ...
 	}
 	switch kind {
 	case "stream":
-		h, err := stream.New(next)
+		var opts []stream.Option
+		if verbose {
+			opts = append(opts, stream.Verbose(true), stream.Logger(formatLogger{}))
+		}
+		h, err := stream.New(next, opts...)
 		must(err)
+		if rewrap {
+			must(h.Wrap(next))
+		}
 		return h
 	case "trace":
 		var sink io.Writer = io.Discard
 		if rapid.IntRange(0, 2).Draw(t, "brokenSink") == 0 {
 			sink = brokenSink{} // a full disk or closed pipe: no reason to touch the response
 		}
-		h, err := trace.New(next, sink, trace.RequestHeaders("X-A"), trace.ResponseHeaders("X-A"))
+		topts := []trace.Option{trace.RequestHeaders("X-A"), trace.ResponseHeaders("X-A")}
+		if verbose {
+			topts = append(topts, trace.Logger(formatLogger{}))
+		}
+		h, err := trace.New(next, sink, topts...)
 		must(err)
 		return h
 	case "connlimit":
@@ -202,8 +218,14 @@ func wrap(t *rapid.T, kind string, next http.Handler, intervene bool, custom ...
 		if cust == 1 {
 			opts = append(opts, connlimit.ErrorHandler(customErr))
 		}
+		if verbose {
+			opts = append(opts, connlimit.Verbose(true), connlimit.Logger(formatLogger{}))
+		}
 		h, err := connlimit.New(next, ipExtractor, limit, opts...)
 		must(err)
+		if rewrap {
+			h.Wrap(next)
+		}
 		return h
 	case "ratelimit":
 		rs := ratelimit.NewRateSet()
@@ -216,8 +238,14 @@ func wrap(t *rapid.T, kind string, next http.Handler, intervene bool, custom ...
 		if cust == 1 {
 			opts = append(opts, ratelimit.ErrorHandler(customErr))
 		}
+		if verbose {
+			opts = append(opts, ratelimit.Logger(formatLogger{}))
+		}
 		h, err := ratelimit.New(next, ipExtractor, rs, opts...)
 		must(err)
+		if rewrap {
+			h.Wrap(next)
+		}
 		return h
 	case "cbreaker":
 		expr := "NetworkErrorRatio() > 2.0"
@@ -237,8 +265,14 @@ func wrap(t *rapid.T, kind string, next http.Handler, intervene bool, custom ...
 			must(err)
 			opts = append(opts, cbreaker.Fallback(fb))
 		}
+		if verbose {
+			opts = append(opts, cbreaker.Verbose(true), cbreaker.Logger(formatLogger{}))
+		}
 		h, err := cbreaker.New(next, expr, opts...)
 		must(err)
+		if rewrap {
+			h.Wrap(next)
+		}
 		return h
 	case "roundrobin", "roundrobin+sticky":
 		var opts []roundrobin.LBOption
@@ -247,6 +281,9 @@ func wrap(t *rapid.T, kind string, next http.Handler, intervene bool, custom ...
 		}
 		if cust == 1 {
 			opts = append(opts, roundrobin.ErrorHandler(customErr))
+		}
+		if verbose {
+			opts = append(opts, roundrobin.Verbose(true), roundrobin.Logger(formatLogger{}))
 		}
 		rr, err := roundrobin.New(next, opts...)
 		must(err)
@@ -263,6 +300,9 @@ func wrap(t *rapid.T, kind string, next http.Handler, intervene bool, custom ...
 		var rbOpts []roundrobin.RebalancerOption
 		if cust == 1 {
 			rbOpts = append(rbOpts, roundrobin.RebalancerErrorHandler(customErr))
+		}
+		if verbose {
+			rbOpts = append(rbOpts, roundrobin.RebalancerDebug(true), roundrobin.RebalancerLogger(formatLogger{}))
 		}
 		rb, err := roundrobin.NewRebalancer(rr, rbOpts...)
 		must(err)
@@ -286,6 +326,9 @@ func wrap(t *rapid.T, kind string, next http.Handler, intervene bool, custom ...
 		}
 		h, err := buffer.New(next, opts...)
 		must(err)
+		if rewrap {
+			must(h.Wrap(next))
+		}
 		return h
 	}
 	t.Fatalf("unknown layer %s", kind)
@@ -351,6 +394,9 @@ func serve(h http.Handler, rec *sim.Recorder, req *http.Request, hijack bool, pl
 	return string(hijacked), panicked
 }
 
+// tlsRequests: the requests of the current case arrived over TLS (the tracer records that).
+var tlsRequests bool
+
 func newRequest(bodyLen int) *http.Request {
 	var body io.Reader
 	method := "GET"
@@ -359,6 +405,9 @@ func newRequest(bodyLen int) *http.Request {
 		method = "POST"
 	}
 	req := httptest.NewRequest(method, "http://front/path?x=1", body)
+	if tlsRequests {
+		req.TLS = &tls.ConnectionState{Version: tls.VersionTLS12, CipherSuite: tls.TLS_ECDHE_RSA_WITH_AES_128_GCM_SHA256, ServerName: "front", HandshakeComplete: true}
+	}
 	if bodyLen > 0 {
 		req.Header.Set("Content-Type", "application/x-www-form-urlencoded")
 	}
@@ -375,6 +424,7 @@ func TestC20_Transparent(t *testing.T) {
 			layers = append(layers, rapid.SampledFrom(layerKinds).Draw(t, "layer"))
 		}
 		s := genScript(t)
+		tlsRequests = rapid.IntRange(0, 3).Draw(t, "tls") == 0
 		bodyLen := rapid.SampledFrom([]int{0, 0, 5, 200}).Draw(t, "reqBody")
 		// bare run
 		var o0 outcome
@@ -512,6 +562,7 @@ var intervening = map[string]int{"connlimit": 429, "ratelimit": 429, "cbreaker":
 
 func TestC20_Intervening(t *testing.T) {
 	rapid.Check(t, func(t *rapid.T) {
+		tlsRequests = rapid.IntRange(0, 3).Draw(t, "tls") == 0
 		clock.Freeze(epoch)
 		defer clock.Unfreeze()
 		depth := rapid.IntRange(1, 6).Draw(t, "depth")
